@@ -154,7 +154,7 @@ def components(tier, disabled):
     q = tier == "quick"
     return {
         "lsig": {"strategy": semantic_program(profile="modelled", disabled=disabled, mode="lsig"),
-                 "check": check, "examples": 1600 if q else 100000, "sample": lambda c, i: RCFG(c).text},
+                 "check": check, "examples": 1600 if q else 70000, "sample": lambda c, i: RCFG(c).text},
         "app": {"strategy": semantic_program(profile="modelled", disabled=disabled, mode="app"),
-                "check": check, "examples": 1200 if q else 80000, "sample": lambda c, i: RCFG(c).text},
+                "check": check, "examples": 1200 if q else 50000, "sample": lambda c, i: RCFG(c).text},
     }
